@@ -75,7 +75,19 @@ def structures(draw, max_atoms=300, full_rank_only=False, allow_zero_periodic=Tr
         d["subst"] = draw(st.sampled_from([0, 0, 1, 3]))
         d["rattle"] = draw(st.sampled_from([0.0, 0.02, 0.1, 0.3]))
         d["rattle_seed"] = draw(seeds)
-        if fam == "crystal" and draw(st.integers(0, 2)) == 0:
+        if fam == "crystal" and draw(st.integers(0, 3)) == 0:
+            # an IDEAL crystal (no rattle, no defects) that is one conventional cell thick along one axis and as wide as the atom
+            # budget allows along the others: every bond across the thin axis duplicates a contact inside the cell, exact ties
+            # between an atom pair and its periodic image are the rule
+            per_cell = {0: 4, 1: 2, 2: 8, 3: 2, 4: 8, 5: 8, 6: 2, 7: 12, 8: 4, 9: 1}[d["proto"]]
+            big = int(max(2, min(6, np.floor(np.sqrt(max_atoms / float(per_cell))))))
+            thin = draw(st.integers(0, 2))
+            d["cubic"] = True
+            d["reps"] = [1 if i == thin else big for i in range(3)]
+            d["vac_frac"], d["subst"], d["rattle"] = 0.0, 0, 0.0
+            d["pbc"] = [True, True, True] if draw(st.integers(0, 2)) else d["pbc"]
+            d["ideal_thin"] = True
+        if fam == "crystal" and not d.get("ideal_thin") and draw(st.integers(0, 2)) == 0:
             d["shear"] = draw(gc.shears(max_steps=2, max_k=1))
     if not full_rank_only and draw(st.integers(0, 3)) == 0:
         d["zero"] = [draw(st.booleans()) for _ in range(3)]
@@ -263,4 +275,6 @@ def labels(d, s):
         out.append("sheared")
     if d.get("tightbox") and not pbc.all():
         out.append("tightbox")
+    if d.get("ideal_thin"):
+        out.append("ideal-thin-supercell")
     return out
